@@ -59,7 +59,7 @@ func genC15(r *sim.Rng, tier string, idx int) *GCase {
 	if r.Chance(1, 150) {
 		return genPresetRoundTrip(r)
 	}
-	c := &GCase{}
+	c := &GCase{StdoutKind: sim.Pick(r, []string{"", "", "", "devnull", "file"})}
 	used := map[string]bool{}
 	pickName := func(dash bool) string {
 		for {
